@@ -133,6 +133,20 @@ impl SequenceStreamMerger {
             matched_events.extend(seq.events.clone());
         }
 
+        // RETURN [...]: the sub-queries also carried the link / time field for the matching;
+        // hand back only the payload fields that were asked for
+        if let Command::Query {
+            return_fields: Some(fields),
+            ..
+        } = ctx.command
+        {
+            if !fields.is_empty() {
+                for event in &mut matched_events {
+                    event.payload.retain(|name, _| fields.contains(name));
+                }
+            }
+        }
+
         debug!(
             target: "sneldb::sequence::streaming::merger",
             matched_events_count = matched_events.len(),
